@@ -37,7 +37,7 @@ REGISTRY["C04"] = dict(level="proof", theorems=T("C04", "C04_indep", "C04_push_b
                        oracles=[P.o_spec, P.o_ledger, P.o_views, P.o_no_defect_panic])
 REGISTRY["C05"] = dict(level="proof", theorems=T("C05", "C05_drop_range", "C05_truncate_back", "C05_truncate_front", "C05_clear", "C05_drain_drop"), cases=P.cases_C05, projection=proj_behaviour,
                        oracles=[P.o_ledger, P.o_views, P.o_no_defect_panic])
-REGISTRY["C06"] = dict(level="proof", theorems=[], cases=P.cases_C06, projection=proj_behaviour,
+REGISTRY["C06"] = dict(level="proof", theorems=T("C06", "C06_clone_in_extend_from_slice", "C06_closure", "C06_iterator", "C06_eq_readonly"), cases=P.cases_C06, projection=proj_behaviour,
                        oracles=[P.o_leak, P.o_views, P.o_no_defect_panic])
 REGISTRY["C07"] = dict(level="proof", theorems=T("C07", "C07_get", "C07_front", "C07_back", "C07_nth_back", "C07_index", "C07_slot_holds", "C07_slots_distinct", "C07_as_slices", "C07_contents", "C07_write", "C07_make_contiguous"), cases=P.cases_C07, projection=proj_physical,
                        oracles=[P.o_spec, P.o_views, P.o_ledger, P.o_documented_panics])
@@ -49,7 +49,7 @@ REGISTRY["C10"] = dict(level="proof", theorems=T("C10", "C10_forget_safe"), case
                        oracles=[P.o_spec, P.o_views, P.o_ledger, P.o_no_defect_panic])
 REGISTRY["C11"] = dict(level="proof", theorems=T("C11", "C11_swap_ok", "C11_swap_panics_i", "C11_swap_panics_j", "C11_index", "C11_range_ok", "C11_range_panics", "C11_drain_panics", "C11_backfill_total"), cases=P.cases_C11, projection=proj_behaviour,
                        oracles=[P.o_spec, P.o_documented_panics, P.o_views])
-REGISTRY["C12"] = dict(level="proof", theorems=[], cases=P.cases_C12, projection=proj_behaviour,
+REGISTRY["C12"] = dict(level="proof", theorems=T("C12", "C12_new", "C12_from_array", "C12_from_iter", "C12_clone", "C12_clone_from", "C12_clone_values", "C12_clone_ids"), cases=P.cases_C12, projection=proj_behaviour,
                        oracles=[P.o_spec, P.o_leak, P.o_views, P.o_no_defect_panic])
 REGISTRY["C13"] = dict(level="proof", theorems=T("C13", "C13_eq", "C13_eq_slice", "C13_cmp", "C13_lex_eq", "C13_lex_lt", "C13_hash", "C13_debug", "C13_readonly"), cases=P.cases_C13, projection=proj_behaviour,
                        oracles=[P.o_spec, P.o_views, P.o_no_defect_panic])
